@@ -134,11 +134,29 @@ fn status_map(o: &Obs) -> Option<Vec<(String, St)>> {
 
 /// checks one run of 1..3 rules files against one document
 pub fn check_run(files: &[File], doc_json: &str, acc: &mut Acc, class: &str) {
+    check_run_layout(files, doc_json, acc, class, "flat");
+    if files.len() > 1 {
+        // the same rules files under one base name in different directories, given one by one and as a directory tree
+        check_run_layout(files, doc_json, acc, &format!("{}-same-basename", class), "same-basename");
+        check_run_layout(files, doc_json, acc, &format!("{}-tree", class), "tree");
+    }
+}
+
+fn check_run_layout(files: &[File], doc_json: &str, acc: &mut Acc, class: &str, layout: &str) {
     let texts: Vec<String> = files.iter().map(print_file).collect();
     let mut argv = sv(&["validate"]);
-    for (k, t) in texts.iter().enumerate() {
+    if layout == "tree" {
+        let d = crate::cli::reset_dir("c09/tree");
+        for (k, t) in texts.iter().enumerate() {
+            put(&format!("c09/tree/d{}/rules.guard", k), t);
+        }
         argv.push("-r".into());
-        argv.push(put(&format!("c09/f{}.guard", k), t));
+        argv.push(d);
+    } else {
+        for (k, t) in texts.iter().enumerate() {
+            argv.push("-r".into());
+            argv.push(if layout == "flat" { put(&format!("c09/f{}.guard", k), t) } else { put(&format!("c09/sb{}/rules.guard", k), t) });
+        }
     }
     argv.push("-d".into());
     argv.push(put("c09/d.json", doc_json));
